@@ -204,18 +204,37 @@ def run(item, ctx, tier, seed):
                 elif int(data.sum()) not in want:
                     ctx.fail("bernoulli-floor-of-n-times-p", case, observed=int(data.sum()), expected=sorted(want))
                 ctx.outcome((n, int(data.sum())))
+                # the returned array is the caller's: overwriting it must not reach later samples (same or other object)
+                if data.flags.writeable:
+                    data[...] = 1 - data if how == "arg" else 0
         ctx.sample({"kind": "bernoulli", "max_n": b["bernoulli_max_n"], "max_den": b["bernoulli_max_den"]})
         return None
 
     if item["kind"] == "correlated":
         p1 = item["p1"]
+        from decimal import Decimal as D, getcontext
+
+        getcontext().prec = 60
         for p2 in b["corr_p"]:
-            for rho in b["corr_rho"]:
-                c = (1 - p1) * (1 - p2)
-                a = c + rho * math.sqrt(p1 * p2 * c)
-                probs = [a, 1 - p2 - a, 1 - p1 - a, p1 + p2 + a - 1]
+            rhos = list(b["corr_rho"])
+            cc = (1 - p1) * (1 - p2)
+            ss = math.sqrt(p1 * p2 * cc)
+            if ss > 0:
+                # the values of rho at which one of the four joint probabilities vanishes, approached from both
+                # sides in steps from far below the resolution of the arithmetic up to 1e-6
+                for num in (-cc, 1 - p2 - cc, 1 - p1 - cc, 1 - p1 - p2 - cc):
+                    r0 = num / ss
+                    if -1.0 <= r0 <= 1.0:
+                        rhos += [r0 + sg * dl for dl in (0.0, 1e-14, 1e-13, 5e-13, 2e-12, 1e-11, 1e-10, 1e-9, 1e-6) for sg in (1, -1)]
+            for rho in dict.fromkeys(rhos):
+                # exact (60 digit) evaluation of the documented formula on the float arguments
+                dp1, dp2, drho = D(p1), D(p2), D(rho)
+                dc = (1 - dp1) * (1 - dp2)
+                da = dc + drho * (dp1 * dp2 * dc).sqrt()
+                probs = [float(q) for q in (da, 1 - dp2 - da, 1 - dp1 - da, dp1 + dp2 + da - 1)]
                 valid_exactish = all(q >= 0 for q in probs)
-                borderline = any(0 < abs(q) < 1e-12 for q in probs)  # an exact 0.0 is decided identically by the code
+                # closer to zero than the rounding of the float evaluation (a few ulps of 1): either answer admissible
+                borderline = any(abs(q) < 1e-15 for q in probs)
                 for n in b["corr_n"]:
                     for random in (False, True):
                         case = {"p1": p1, "p2": p2, "rho": rho, "n": n, "random": random, "joint": probs}
@@ -250,6 +269,8 @@ def run(item, ctx, tier, seed):
                             if abs(m1 - n * p1) > 3 + 1e-9 or abs(m2 - n * p2) > 3 + 1e-9:
                                 ctx.fail("marginals-within-three-draws", case, observed=[m1, m2], expected=[n * p1, n * p2])
                             ctx.outcome((p1, p2, rho, n, m1, m2))
+                        if data.flags.writeable:
+                            data[...] = 1 - data  # caller-owned result: must not reach later samples
         ctx.sample({"kind": "correlated", "p1": p1, "p2": b["corr_p"], "rho": b["corr_rho"], "n": b["corr_n"]})
         return None
 
